@@ -11,6 +11,7 @@ from __future__ import annotations
 import json
 
 from exabgp.bgp.message.open.capability.capability import Capability
+from exabgp.util import peertext
 from exabgp.bgp.message.open.capability.capability import CapabilityCode
 from exabgp.bgp.message.open.capability.capability import decode_utf8 as _decode_utf8
 from exabgp.bgp.message.notification import Notify
@@ -37,7 +38,9 @@ class HostName(Capability):
         self.domain_name: str = domain() if domain_name is None else domain_name
 
     def __str__(self) -> str:
-        return 'Hostname({} {})'.format(self.host_name, self.domain_name)
+        # (peer strings: a space, a parenthesis or a bracket in one of them moved the boundary between the two names or
+        # ended the capability -- `), software(evil` read like a software-version capability)
+        return 'Hostname({} {})'.format(peertext(self.host_name, bare=True), peertext(self.domain_name, bare=True))
 
     def json(self) -> str:
         return '{{ "host-name": {}, "domain-name": {} }}'.format(
